@@ -36,7 +36,8 @@ Definition model_ctx (c : lctx) (d : nat) : jx * bool :=   (* program, is it see
   | LCond => (JCond b JNil JNil, false)
   | LGrad | LValueAndGrad => (JGrad b JNil, false)
   | LVmap => (b, false)
-  | LSeedWhile | LSeedJit | LSeedFori => (JOther b JNil, true)
+  | LSeedWhile | LSeedJit => (JOther b JNil, true)
+  | LSeedFori => (JScan 2 b JNil, true)     (* fori_loop with static bounds is a scan *)
   | LSeedScanWhile => (JScan 2 (JOther b JNil) JNil, true)
   | LSeedOk => (b, true)
   | LJitDet => (JDet JNil, false)
@@ -54,8 +55,7 @@ Definition check_scase (c : scase) : bool * bool * bool :=
       (* what the model of the code predicts *)
       let predicted_raise := lower_raises (if seeded then residual p else p) in
       (* what the property demands: any source site that is not given a key must raise *)
-      let demanded_raise := if seeded then unseeded p || (match ctx with LSeedOk => false | _ => contains_site p end)
-                            else contains_site p in
+      let demanded_raise := if seeded then unseeded p else contains_site p in
       match ctx with
       | LVmap =>
           let ok := match o with ONotImpl | OLowering => true | _ => false end in (ok, ok, ok)
